@@ -298,61 +298,70 @@ structure Step3 where
   nextPage : Nat
 deriving Repr
 
-/-- the "right page" action of Steps 3 / 4: `count -= 1; page_map[count] = { major of
-other.page_map[idx_b], index: next_page }; next_page += 1; *page_for_index_mut(count) =
-other.page_for_index(idx_b).clone()` (with `idx_b` already decremented) -/
-def emitRight (o : CBitSet) (st : Step3) : Step3 :=
+/-- Steps 3 / 4, a page present on BOTH sides (`Ordering::Equal`): `idx_a -= 1; idx_b -= 1;
+count -= 1; page_map[count] = page_map[idx_a]; *page_for_index_mut(count) =
+op(page_for_index(idx_a), other.page_for_index(idx_b))` — the result overwrites the left page
+in place (same `index`), only the map entry moves. -/
+def emitBoth (cop : CPage → CPage → CPage) (o : CBitSet) (st : Step3) : Step3 :=
+  let idxA := st.idxA - 1
+  let idxB := st.idxB - 1
   let count := st.count - 1
-  let pm := st.pm.set count ((o.pageMap.getD st.idxB (0, 0)).1, st.nextPage)
-  let pages := setPageForIndex pm st.pages count (pageForIndex o.pageMap o.pages st.idxB)
-  { st with pm := pm, pages := pages, count := count, nextPage := st.nextPage + 1 }
+  let pm := st.pm.set count (st.pm.getD idxA (0, 0))
+  let page := cop (pageForIndex pm st.pages idxA) (pageForIndex o.pageMap o.pages idxB)
+  ⟨pm, setPageForIndex pm st.pages count page, idxA, idxB, count, st.nextPage⟩
 
-/-- Step 3 of `process`: merge from the LAST page to the first, writing map entries at
-`page_map[count]` (filling the resized map from the back), applying `op` in place on pages
-present on both sides and appending cloned right-hand pages at `pages[next_page]`. -/
+/-- a left-only page that is passed through: `idx_a -= 1; count -= 1;
+page_map[count] = page_map[idx_a]` (the page itself stays where it is) -/
+def emitLeft (st : Step3) : Step3 :=
+  { st with pm := st.pm.set (st.count - 1) (st.pm.getD (st.idxA - 1) (0, 0)),
+            idxA := st.idxA - 1, count := st.count - 1 }
+
+/-- a left-only page that is dropped: `idx_a -= 1` -/
+def skipLeft (st : Step3) : Step3 := { st with idxA := st.idxA - 1 }
+
+/-- a right-only page that is passed through: `idx_b -= 1; count -= 1; page_map[count] =
+{ major of other.page_map[idx_b], index: next_page }; next_page += 1;
+*page_for_index_mut(count) = other.page_for_index(idx_b).clone()` — appended at the END of the
+used part of `pages` -/
+def emitRight (o : CBitSet) (st : Step3) : Step3 :=
+  let idxB := st.idxB - 1
+  let count := st.count - 1
+  let pm := st.pm.set count ((o.pageMap.getD idxB (0, 0)).1, st.nextPage)
+  let pages := setPageForIndex pm st.pages count (pageForIndex o.pageMap o.pages idxB)
+  { st with pm := pm, pages := pages, idxB := idxB, count := count, nextPage := st.nextPage + 1 }
+
+/-- a right-only page that is dropped: `idx_b -= 1` -/
+def skipRight (st : Step3) : Step3 := { st with idxB := st.idxB - 1 }
+
+/-- Step 3 of `process`: merge from the LAST page to the first (`while idx_a > 0 && idx_b > 0`),
+writing map entries at `page_map[count]` (filling the resized map from the back). -/
 def processStep3 (cop : CPage → CPage → CPage) (ptl ptr : Bool) (o : CBitSet) (st : Step3) : Step3 :=
   if st.idxA > 0 ∧ st.idxB > 0 then
     let aMajor := (st.pm.getD (st.idxA - 1) (0, 0)).1
     let bMajor := (o.pageMap.getD (st.idxB - 1) (0, 0)).1
-    if aMajor = bMajor then
-      let idxA := st.idxA - 1
-      let idxB := st.idxB - 1
-      let count := st.count - 1
-      let pm := st.pm.set count (st.pm.getD idxA (0, 0))
-      let page := cop (pageForIndex pm st.pages idxA) (pageForIndex o.pageMap o.pages idxB)
-      let pages := setPageForIndex pm st.pages count page
-      processStep3 cop ptl ptr o ⟨pm, pages, idxA, idxB, count, st.nextPage⟩
+    if aMajor = bMajor then processStep3 cop ptl ptr o (emitBoth cop o st)
     else if aMajor > bMajor then
-      let idxA := st.idxA - 1
-      if ptl then
-        let count := st.count - 1
-        processStep3 cop ptl ptr o
-          { st with pm := st.pm.set count (st.pm.getD idxA (0, 0)), idxA := idxA, count := count }
-      else processStep3 cop ptl ptr o { st with idxA := idxA }
-    else
-      let st1 := { st with idxB := st.idxB - 1 }
-      if ptr then processStep3 cop ptl ptr o (emitRight o st1)
-      else processStep3 cop ptl ptr o st1
+      processStep3 cop ptl ptr o (if ptl then emitLeft st else skipLeft st)
+    else processStep3 cop ptl ptr o (if ptr then emitRight o st else skipRight st)
   else st
 termination_by st.idxA + st.idxB
-decreasing_by all_goals ((try simp only [emitRight]); omega)
+decreasing_by
+  all_goals (first
+    | (simp only [emitBoth]; omega)
+    | (split <;> simp only [emitLeft, skipLeft, emitRight, skipRight] <;> omega))
 
-/-- Step 4, left: `while idx_a > 0 { idx_a -= 1; count -= 1; page_map[count] = page_map[idx_a] }` -/
+/-- Step 4, left (`if passthrough_left`): `while idx_a > 0 { idx_a -= 1; count -= 1;
+page_map[count] = page_map[idx_a] }` -/
 def processStep4Left (st : Step3) : Step3 :=
-  if st.idxA > 0 then
-    let idxA := st.idxA - 1
-    let count := st.count - 1
-    processStep4Left { st with pm := st.pm.set count (st.pm.getD idxA (0, 0)), idxA := idxA, count := count }
-  else st
+  if st.idxA > 0 then processStep4Left (emitLeft st) else st
 termination_by st.idxA
-decreasing_by omega
+decreasing_by simp only [emitLeft]; omega
 
-/-- Step 4, right: `while idx_b > 0 { idx_b -= 1; … clone the right page … }` -/
+/-- Step 4, right (`if passthrough_right`): `while idx_b > 0 { … clone the right page … }` -/
 def processStep4Right (o : CBitSet) (st : Step3) : Step3 :=
-  if st.idxB > 0 then processStep4Right o (emitRight o { st with idxB := st.idxB - 1 })
-  else st
+  if st.idxB > 0 then processStep4Right o (emitRight o st) else st
 termination_by st.idxB
-decreasing_by (simp only [emitRight]; omega)
+decreasing_by simp only [emitRight]; omega
 
 /-- `BitSet::process(op, other)` -/
 def CBitSet.process (cop : CPage → CPage → CPage) (s o : CBitSet) : CBitSet :=
